@@ -289,6 +289,24 @@ def rule_cases(ctx):
             if t is not None:
                 out.append({**common, "kind": "injected", "how": how, "text": spell(t, rng if how not in
                             ("unbalanced-open", "unbalanced-close") else None), "must": "reject"})
+        if b % 3 == 0:
+            # a variable without terms is not recognised by the loaders (`if variable:` is false, Variable.__len__):
+            # `ghost is any` in the antecedent / `ghostout is t` in the consequent are rejected; the model must agree
+            ghost = {"name": A.GHOST, "out": False, "enabled": True, "terms": [], "agg": None, "acts": []}
+            gout = {"name": "ghostout", "out": True, "enabled": True, "terms": [], "agg": None, "acts": []}
+            cm2 = dict(common, vars=base["vars"] + [ghost, gout])
+            toks = base["tokens"]
+            i_then = toks.index("then")
+            how = rng.choice(["ante-alone", "ante-and", "ante-or-first", "cons"])
+            if how == "ante-alone":
+                t = ["if", A.GHOST, "is", "any"] + toks[i_then:]
+            elif how == "ante-and":
+                t = toks[:i_then] + ["and", A.GHOST, "is", "any"] + toks[i_then:]
+            elif how == "ante-or-first":
+                t = ["if", A.GHOST, "is", "very", "any", "or"] + toks[1:]
+            else:
+                t = toks[:i_then + 1] + ["ghostout", "is", rng.choice(A.TERM_NAMES), "and"] + toks[i_then + 1:]
+            out.append({**cm2, "kind": "mutant", "how": f"termless-{how}", "text": spell(t, rng), "must": "reject"})
         if b % 4 == 0:      # truncation at every token boundary
             for k in range(len(base["tokens"])):
                 out.append({**common, "kind": "truncated", "how": f"{k}", "text": spell(base["tokens"][:k]), "must": None})
